@@ -40,6 +40,23 @@ pub fn full() -> Vec<ConfigEntry> {
     v
 }
 
+/// Padded and strongly over-aligned allocator values (header 80 / 128 / 512 bytes, alignment up to 256): only the
+/// arena part of C12 uses them.
+#[cfg(feature = "full-matrix")]
+pub fn pad() -> Vec<ConfigEntry> {
+    let mut v = Vec::new();
+    v.extend(cfgp0::entries());
+    v.extend(cfgp1::entries());
+    v.extend(cfgp2::entries());
+    v.extend(cfgp3::entries());
+    v
+}
+
+#[cfg(not(feature = "full-matrix"))]
+pub fn pad() -> Vec<ConfigEntry> {
+    Vec::new()
+}
+
 #[cfg(not(feature = "full-matrix"))]
 pub fn full() -> Vec<ConfigEntry> {
     quick()
@@ -48,5 +65,11 @@ pub fn full() -> Vec<ConfigEntry> {
 pub const HAS_FULL: bool = cfg!(feature = "full-matrix");
 
 pub fn all(include_full: bool) -> Vec<ConfigEntry> {
-    if include_full { full() } else { quick() }
+    if include_full {
+        let mut v = full();
+        v.extend(pad());
+        v
+    } else {
+        quick()
+    }
 }
